@@ -79,6 +79,14 @@ func (g *gen) leaf() *Schema {
 }
 
 func (g *gen) keySchema() *Schema {
+	if g.r.Chance(1, 8) {
+		// key types whose map form is not a string (small ints, bool): no JSON object form; the encoder must return
+		// an error for a non-empty map (it panicked before 9d20a03), the decoder rejects every key
+		if g.r.Chance(1, 4) {
+			return &Schema{Kind: "bool"}
+		}
+		return &Schema{Kind: "num", NK: vx.Pick(g.r, numKinds)}
+	}
 	switch g.r.Intn(6) {
 	case 0, 1:
 		return &Schema{Kind: "str"}
@@ -119,6 +127,10 @@ func (g *gen) structSchema(depth int, iface bool, ptr bool, code bool) *Schema {
 		f.S = g.schema(depth+1, iface)
 		if f.S.Kind == "u256" || f.S.Kind == "iface" || (f.S.Kind == "struct" && f.S.Ptr) {
 			f.Opt = g.r.Chance(1, 2)
+		}
+		// omitempty: on every kind whose emptiness the model value determines (not maps, arrays, by-value structs)
+		if !f.Opt && f.S.Kind != "map" && f.S.Kind != "arr" && !(f.S.Kind == "struct" && !f.S.Ptr) && g.r.Chance(1, 4) {
+			f.Omit = true
 		}
 		s.Fields = append(s.Fields, f)
 	}
@@ -229,11 +241,14 @@ func genValue(r *vx.Rng, s *Schema, dst reflect.Value) {
 		}
 		for i, f := range s.Fields {
 			nilP := 1
-			if f.Opt {
+			if f.Opt || f.Omit {
 				nilP = 12
 			}
 			if (f.S.Kind == "u256" || f.S.Kind == "iface" || (f.S.Kind == "struct" && f.S.Ptr)) && r.Chance(nilP, 30) {
-				continue // leave nil (an error / panic of the encoder when the field is not optional)
+				continue // leave nil (an error of the encoder when the field is neither optional nor omitempty)
+			}
+			if f.Omit && r.Chance(1, 3) {
+				continue // leave the zero value (the zero time.Time included): the encoder omits the key
 			}
 			genValue(r, f.S, dst.Field(i))
 		}
@@ -377,6 +392,9 @@ func (h *harness) encCase(r *vx.Rng, s *Schema, api *serix.API, ptr reflect.Valu
 		}
 	case "err":
 		obs = "(Err EType)"
+	case "panic":
+		// outside C01's statement proper (no JSON form exists for such a value) but a fixed robustness defect: regression oracle
+		h.st.Fail(map[string]any{"sig": "json-encode-panic", "what": "JSONEncode panicked: " + short(e.msg, 200), "schema": short(sc, 400), "value": short(vt, 400), "validation": val})
 	}
 	desc := map[string]any{"mode": "enc", "tag": tag, "validation": val, "schema": sc, "value": vt, "go_outcome": e.class, "doc": short(string(e.doc), 400), "msg": short(e.msg, 120)}
 	h.add("CEnc "+sc+" "+vt+" "+obs, desc, sc+vt, nontrivial(s, string(e.doc)))
@@ -498,6 +516,49 @@ func (h *harness) directed() {
 	for _, tm := range []time.Time{time.Unix(-5, 0).UTC(), time.Date(3000, 1, 1, 0, 0, 0, 0, time.UTC), time.Date(1500, 1, 1, 0, 0, 0, 0, time.UTC)} {
 		ptr.Elem().Field(7).Set(reflect.ValueOf(tm))
 		h.encCase(nil, s, api, ptr, false, false, "directed-time-clamped")
+	}
+	// fixed 9d20a03: maps whose key type does not encode to a JSON string made MapEncode/JSONEncode panic
+	// (`k.(string)`): [1]map[uint16]bool, map[int32]string, map[bool]string; an empty such map is still `{}`
+	for _, ks := range []*Schema{{Kind: "num", NK: "U16"}, {Kind: "num", NK: "I32"}, {Kind: "bool"}} {
+		for _, wrap := range []bool{true, false} {
+			for _, fill := range []bool{true, false} {
+				ms := &Schema{Kind: "map", Key: &Schema{Kind: ks.Kind, NK: ks.NK}, Elem: &Schema{Kind: "bool"}}
+				fsch := ms
+				if wrap {
+					fsch = &Schema{Kind: "arr", N: 1, Elem: ms}
+				}
+				ts := &Schema{Kind: "struct", Code: -1, Fields: []*Field{{Name: "M", S: fsch}}}
+				tapi := setup(ts)
+				p := reflect.New(ts.T)
+				if fill {
+					m := reflect.MakeMap(ms.T)
+					k := reflect.New(ms.Key.T).Elem()
+					if ks.Kind == "bool" {
+						k.SetBool(true)
+					} else if ks.NK[0] == 'U' {
+						k.SetUint(1)
+					} else {
+						k.SetInt(-1)
+					}
+					m.SetMapIndex(k, reflect.ValueOf(true))
+					if wrap {
+						p.Elem().Field(0).Index(0).Set(m)
+					} else {
+						p.Elem().Field(0).Set(m)
+					}
+				}
+				h.encCase(nil, ts, tapi, p, false, !fill, "directed-nonstring-map-key")
+				for _, doc := range []string{`{"m":{"1":true}}`, `{"m":[{"1":true}]}`, `{"m":{"true":true}}`, `{"m":{}}`, `{"m":[{}]}`} {
+					h.decCase(ts, tapi, lit(doc), false, "directed-nonstring-map-key")
+				}
+			}
+		}
+	}
+	// fixed bb76e84: a nil non-optional *big.Int made the JSON encoder panic (nil dereference); the optional one is omitted
+	for _, opt := range []bool{false, true} {
+		ts := &Schema{Kind: "struct", Code: -1, Fields: []*Field{{Name: "B", S: &Schema{Kind: "u256"}, Opt: opt}, {Name: "X", S: &Schema{Kind: "num", NK: "I8"}}}}
+		tapi := setup(ts)
+		h.encCase(nil, ts, tapi, reflect.New(ts.T), false, opt, "directed-nil-bigint")
 	}
 }
 
